@@ -401,4 +401,15 @@ class C08(Check):
         changed = []
         if gen.run_translator(harness, "gen-nas", "NasDesc.v", ("coq",)):
             changed.append("NasDesc.v")
+        self._fresh = True
         return changed
+
+    def eval_cases(self, st, cases, obs):
+        # `./check Cxx --replay f` evaluates cases without going through run(): make sure the model is the one of the current tree
+        if not getattr(self, "_fresh", False):
+            h, err = C.build_harness()
+            if h is None:
+                raise RuntimeError(err)
+            self.regen(h)
+            C.coq_make([t for t in self.extra_targets])
+        return super().eval_cases(st, cases, obs)
